@@ -3,9 +3,9 @@ import vlib
 from checks import ebpf as B
 from checks import C05, C01
 
-UNITS = ['Opcodes', 'Codec', 'Verifier', 'JitLogic']
-MODELS = ['theories/Verifier.vo', 'gen/JitLogic.vo']
-PROOFS = ['theories/JitLogicProofs.v', 'theories/VerifierProofs.v']
+UNITS = ['Opcodes', 'Codec', 'Verifier', 'JitLogic', 'ClCfg']
+MODELS = ['theories/Verifier.vo', 'gen/JitLogic.vo', 'gen/ClCfg.vo']
+PROOFS = ['theories/JitLogicProofs.v', 'theories/VerifierProofs.v', 'theories/ClCfgProofs.v']
 
 
 def gen_progs(chk):
